@@ -24,7 +24,7 @@ PARTIAL = ["the theorems are about where the compiler model lets tail calls thro
 CTX_ANY = ["(. | @X)", "(. as $v | @X)", "(empty, @X)", "(null // @X)", "(false // @X)", "if true then @X else . end", "if false then . else @X end",
            "if false then . elif true then @X else . end", "foreach 1 as $s (.; .; @X)", "(def aux: .; @X)", "(def aux($q): $q; @X)", "(1 as $one | . | @X)",
            # destructuring bindings are bindings: what stands to their right is in tail position as well
-           "([.] as [$v] | $v | @X)", "({a: .} as {a: $v} | $v | @X)", "({a: .} as {$a} | $a | @X)", "([., 1] as [$v, $w] | $v | @X)"]
+           "([.] as [$v] | @X)", "({a: .} as {a: $v} | @X)", "({a: .} as {$a} | @X)", "([., 1] as [$v, $w] | @X)"]
 
 
 class Def:
